@@ -13,6 +13,8 @@ CONF = {
             'Calls are packets, FlushAll, or the age-based flush (tcpassembly FlushOlderThan / reassembly FlushCloseOlderThan, packets carry capture timestamps). Directed schedules for two narrow windows: close-between-snapshot-and-lock (a flusher takes its pool snapshot at every point of the closing assembler progress, the connection is closed by an in-order FIN or an End page while out-of-order pages are queued, then the flusher locks it) and lose-the-lookup-race-twice (every placement of the first three steps of a one-packet assembler among the steps of an assembler that opens and closes the same flow twice; also with a third assembler making the successor). Quick: corpus witnesses + ~1700 directed + 300 random cases. Thorough: 3000 random cases + ALL schedules (depth-first, stateless, at most '
             '6000 schedules per workload and package) of 4 two-assembler workloads + a free-running -race build (support run).',
     'shrink_keep_first': 1,
+    'coq_sample': 11,   # the corpus witnesses, re-evaluated inside Coq by vm_compute: thread programs, schedule and a total
+                        # digest (coq/Model/C12Digest.v) of the final state and log printed by the extracted runner
     'model_optional': True,
     'assumptions': [
         'PARTIAL: the Go memory model, the goroutine scheduler and the race detector are outside the model; "no data race" is '
